@@ -93,6 +93,13 @@ def main(tier, replay=None):
     except Exception as e:
         import traceback
         chk.violation('simd', 'SIMD translation step failed: %s' % e, {'traceback': traceback.format_exc()[-2000:]}, no_input=True)
+    # the same for the portable generators of raid/int.c, raid/intz.c (+ helpers of raid/gf.h): coq/Gen/IntProgs.v
+    try:
+        import c02_int
+        c02_int.run(chk, snap, drv)
+    except Exception as e:
+        import traceback
+        chk.violation('int', 'portable-generator translation step failed: %s' % e, {'traceback': traceback.format_exc()[-2000:]}, no_input=True)
     ob = check_obligations('C02')
     proof_coverage(chk, ob, 'make -f Makefile.coq -k Props/Properties_C02.vo (coqc 8.16.1, full .vo) + Print Assumptions',
                    ['Coq 8.16.1 kernel incl. vm_compute', 'harness/gen/tables.py (regex translator of raid/tables.c)',
